@@ -20,6 +20,10 @@
 #ifndef COMP
 #define COMP ZCK_COMP_ZSTD
 #endif
+#ifndef CL2
+#define CL2 1
+#define UL2 0
+#endif
 #define ND (NCH - 1)
 #define OMAX (ND * CMAX)
 size_t IN_fsz, IN_len[NCH], IN_ulen[NCH], IN_rd[NRD]; unsigned char IN_file[FCAP], IN_dig[NCH][DSZ], IN_full[32];
@@ -35,7 +39,13 @@ typedef struct {
 static rd_t setup(void) {
     rd_t s;
     vf_havoc(0);
+#ifdef SHAPE
+    /* concrete shape per harness instance (stored / declared sizes, file length, request size): control flow of the read
+     * loop then resolves by constant propagation; bytes, digests and hence every checksum verdict stay symbolic */
+    size_t fsz = FSZ;
+#else
     size_t fsz = nondet_size_t();
+#endif
     ASSUME(fsz <= FCAP);
     vf_attach(0, 3, fsz);
     for(size_t i = 0; i < FCAP; i++) IN_file[i] = vf_data0[i];
@@ -50,7 +60,11 @@ static rd_t setup(void) {
     /* chunk 0 = empty dictionary */
     s.t.c[0]->comp_length = 0; s.t.c[0]->length = 0; memset(s.t.c[0]->digest, 0, DSZ);
     for(size_t i = 1; i < NCH; i++) {
+#ifdef SHAPE
+        s.t.c[i]->comp_length = (i == 1) ? CL1 : CL2; s.t.c[i]->length = (i == 1) ? UL1 : UL2;
+#else
         ASSUME(s.t.c[i]->comp_length >= 1 && s.t.c[i]->comp_length <= CMAX && s.t.c[i]->length <= CMAX + 1);
+#endif
     }
     for(size_t i = 0; i < NCH; i++) { s.t.c[i]->valid = 0; IN_len[i] = s.t.c[i]->comp_length; IN_ulen[i] = s.t.c[i]->length;
         for(int k = 0; k < DSZ; k++) IN_dig[i][k] = (unsigned char)s.t.c[i]->digest[k]; }
@@ -100,9 +114,14 @@ void h15r(void) {
     char *buf = malloc(RMAX);
     ASSUME(buf != NULL);
     for(int r = 0; r < NRD; r++) {
+#ifdef SHAPE
+        size_t want = WANT;
+#else
         size_t want = nondet_size_t();
         ASSUME(want >= 1 && want <= RMAX);
+#endif
         IN_rd[r] = want;
+        if(failed && nondet_bool()) zck_clear_error(z);        /* a caller may clear a non-fatal error and read on */
         ssize_t n = zck_read(z, buf, want);
         if(n < 0) { failed = 1; continue; }
         OBLIGE((size_t)n <= want, "C15/read-returns-no-more-than-requested");
